@@ -164,3 +164,182 @@ spec(lean="sort_nodes", module="AlgoCtor", file=_NORM, func="sort_nodes",
 spec(lean="link_roots_to_nearest", module="AlgoCtor", file=_NORM, func="link_roots_to_nearest",
      params=["heap", "df"], vars=_HV, ret=FRAME_TYPE, out=["heap"], fuel=True, tparams=["σ"], callbacks=_DIST,
      doc="`swcgeom/core/swc_utils/normalizer.py::link_roots_to_nearest` (frames are objects in `heap`; the distances are the callback `norm`)")
+
+
+# ------------------------------------------------------------------------------------------------------------------------------------
+# `Tree.__init__` and `padding1d`  ->  Gen/AlgoCtorInit.lean  (C03: what the constructor copies and what it ALIASES)
+#
+# DATA.  numpy arrays are OBJECTS (Model/PyCtor.lean): an array is a record `Arr` = a window onto a buffer of the heap `heap : Py.Bufs`, with a
+# dtype tag (np.int32 = 0, np.float32 = 1, np.int64 = 2, np.float64 = 3); `**kwargs` / `ndata` are `Dict String Arr`.
+#
+# HOOKS (numpy idioms on array objects; active for this file's modules only; every allocating call appends ONE buffer to the heap):
+#   np.arange(a, b, step=1, dtype=D) · np.zeros(n, dtype=D) · np.full(n, x, dtype=D) · np.concatenate([a, b]) · a.astype(D)   (allocate)
+#   a[:n] (a VIEW: same buffer) · a.dtype · a.shape[0] · a.ndim (= 1: all modelled arrays are 1-d) · np.int32 / np.float32 (the tags)
+#   an attribute / method of a variable of type `Option Arr`: `None` has none -> an error of the typed model
+#   `x or y` with x : Option T  (None is falsy; a dtype is never falsy) · `a != b` / `a == b` between T and Option T
+#   `d.pop(k, None)` on a dict VARIABLE (Py.dictPopD, the variable is updated) · `{**a, **b}` (Py.dictMerge)
+#   a call of a translated function whose first parameter is the buffer heap (`padding1d`): the caller's heap is handed in and written back;
+#   keywords by name, missing ones from the callee's own `def` (read from its current source)
+#   `np.array(x, dtype=D)` of a NON-array sequence: not modelled -> an error of the typed model
+# TRUSTED GLUE:
+#   padding1d: `isinstance(v, np.ndarray)` is `v is not None` (the only non-array value the callers translated here hand in is None)
+#   Tree.__init__: `names = get_names(names)` skipped and `names.<col>` = the default column names; the final
+#     `super().__init__(**ndata, **kwargs, source=…, comments=…, names=…)` is `self.ndata = {**ndata, **kwargs}` (DictSWC.__init__ stores its
+#     `**kwargs` dict as `ndata`; source / comments / names are not modelled here, see 70_views.py for DictSWC.__init__ itself).
+MODULE_MODEL_IMPORTS["AlgoCtorInit"] = ["PyCtor"]
+_INIT_MODS = {"AlgoCtorInit"}
+STRUCTS["Arr"] = {"buf": "Int", "len": "Int", "dtype": "Int"}
+_ARR, _OARR = "Arr", ("Option", "Arr")
+_DTYPES = {"np.int32": 0, "np.float32": 1, "np.int64": 2, "np.float64": 3}
+
+
+def _show_arr(t):
+    return "Py.Arr" if t == "Arr" else None
+
+
+SHOW_TYPE_HOOKS.append(_show_arr)
+
+
+def _bufs_var(tr):
+    hs = [k for k, t in tr.vars.items() if t == "Py.Bufs"]
+    if len(hs) != 1:
+        raise Untranslatable(f"{tr.spec.lean}: needs exactly one variable of type Py.Bufs (the heap of buffers)")
+    return lname(hs[0])
+
+
+def _as(tr, e, ty):
+    """(steps, code) of `e` as a value of type `ty` (an `Option ty` is unwrapped: None where a value is needed is an error)"""
+    s, c, t = tr.tr(e, ty)
+    if t != ty:
+        s, c = tr.coerce2(s, c, t, ty)
+    return s, c
+
+
+def _alloc(tr, steps, call, fallible):
+    h, n = _bufs_var(tr), tr.bindname()
+    if fallible:
+        return steps + [f"Py.bind ({call}) fun {n} => let v := {{ v with {h} := {n}.1 }};"], f"{n}.2", _ARR
+    return steps + [f"let {n} := {call}; let v := {{ v with {h} := {n}.1 }};"], f"{n}.2", _ARR
+
+
+def _np_arrays(tr, e, want):
+    if tr.spec.module not in _INIT_MODS:
+        return None
+    txt = ast.unparse(e)
+    if txt in _DTYPES:
+        return [], f"({_DTYPES[txt]} : Int)", "Int"
+    if isinstance(e, ast.Call):
+        f = ast.unparse(e.func)
+        kw = {k.arg: k.value for k in e.keywords}
+        h = None
+        if f == "np.arange" and len(e.args) == 2 and set(kw) == {"step", "dtype"} and ast.unparse(kw["step"]) == "1":
+            (s1, a), (s2, b), (s3, d) = _as(tr, e.args[0], "Int"), _as(tr, e.args[1], "Int"), _as(tr, kw["dtype"], "Int")
+            return _alloc(tr, s1 + s2 + s3, f"Py.Bufs.arange v.{_bufs_var(tr)} {a} {b} {d}", False)
+        if f == "np.zeros" and len(e.args) == 1 and set(kw) == {"dtype"}:
+            (s1, a), (s3, d) = _as(tr, e.args[0], "Int"), _as(tr, kw["dtype"], "Int")
+            return _alloc(tr, s1 + s3, f"Py.Bufs.full v.{_bufs_var(tr)} {a} 0 {d}", True)
+        if f == "np.full" and len(e.args) == 2 and set(kw) == {"dtype"}:
+            (s1, a), (s2, b), (s3, d) = _as(tr, e.args[0], "Int"), _as(tr, e.args[1], "Int"), _as(tr, kw["dtype"], "Int")
+            return _alloc(tr, s1 + s2 + s3, f"Py.Bufs.full v.{_bufs_var(tr)} {a} {b} {d}", True)
+        if f == "np.concatenate" and len(e.args) == 1 and isinstance(e.args[0], ast.List) and len(e.args[0].elts) == 2 and not kw:
+            (s1, a), (s2, b) = _as(tr, e.args[0].elts[0], _ARR), _as(tr, e.args[0].elts[1], _ARR)
+            return _alloc(tr, s1 + s2, f"Py.Bufs.concat v.{_bufs_var(tr)} {a} {b}", True)
+        if f == "np.array" and len(e.args) == 1 and set(kw) == {"dtype"}:
+            s, c, t = tr.tr(e.args[0])
+            if t in (_ARR, _OARR):
+                n = tr.bindname()      # a non-array sequence turned into an array: not modelled
+                return s + [f"Py.bind (none : Option Py.Arr) fun {n} =>"], n, _ARR
+        if isinstance(e.func, ast.Attribute) and e.func.attr == "astype" and len(e.args) == 1 and not kw:
+            s, c, t = tr.tr(e.func.value)
+            if t in (_ARR, _OARR):
+                (s1, a), (s2, d) = _as(tr, e.func.value, _ARR), _as(tr, e.args[0], "Int")
+                return _alloc(tr, s1 + s2, f"Py.Bufs.astype v.{_bufs_var(tr)} {a} {d}", True)
+        if (isinstance(e.func, ast.Attribute) and e.func.attr == "pop" and len(e.args) == 2 and ast.unparse(e.args[1]) == "None" and not kw
+                and isinstance(e.func.value, ast.Name) and isinstance(tr.vars.get(e.func.value.id), tuple) and tr.vars[e.func.value.id][0] == "Dict"):
+            dn, dt = lname(e.func.value.id), tr.vars[e.func.value.id]
+            s1, k = _as(tr, e.args[0], dt[1])
+            n = tr.bindname()
+            return s1 + [f"let {n} := Py.dictPopD v.{dn} {k}; let v := {{ v with {dn} := {n}.1 }};"], f"{n}.2", ("Option", dt[2])
+        # a translated function over the buffer heap
+        if f in tr.table and tr.table[f].params and tr.table[f].vars.get(tr.table[f].params[0]) == "Py.Bufs":
+            cal = tr.table[f]
+            if cal.out != [cal.params[0]] or cal.fuel or cal.callbacks:
+                return None
+            given = dict(zip(cal.params[1:], e.args))
+            if len(e.args) > len(cal.params) - 1 or None in kw or set(kw) & set(given) or set(kw) - set(cal.params[1:]):
+                raise Untranslatable(f"{tr.spec.lean}: arguments of `{txt}`")
+            given.update(kw)
+            dfl = fn_defaults(cal)
+            steps, codes = [], []
+            for pn in cal.params[1:]:
+                x = given.get(pn, dfl.get(pn))
+                if x is None:
+                    raise Untranslatable(f"{tr.spec.lean}: `{txt}` gives no `{pn}`")
+                pt = parse_type(cal.vars[pn])
+                s1, c1, t1 = tr.tr(x, pt)
+                if t1 != pt:
+                    c1 = tr.coerce(c1, t1, pt)
+                steps += s1
+                codes.append(c1)
+            return _alloc(tr, steps, f"{cal.lean} v.{_bufs_var(tr)} {' '.join(codes)}", True)[:2] + (parse_type(cal.ret),)
+    if isinstance(e, ast.Attribute) and e.attr in ("dtype", "ndim"):
+        s, c, t = tr.tr(e.value)
+        if t in (_ARR, _OARR):
+            s1, a = _as(tr, e.value, _ARR)
+            return (s1, f"{a}.dtype", "Int") if e.attr == "dtype" else (s1, "(1 : Int)", "Int")
+    if (isinstance(e, ast.Subscript) and isinstance(e.value, ast.Attribute) and e.value.attr == "shape" and ast.unparse(e.slice) == "0"):
+        s, c, t = tr.tr(e.value.value)
+        if t in (_ARR, _OARR):
+            s1, a = _as(tr, e.value.value, _ARR)
+            return s1, f"{a}.len", "Int"
+    if (isinstance(e, ast.Subscript) and isinstance(e.slice, ast.Slice) and e.slice.lower is None and e.slice.step is None and e.slice.upper is not None):
+        s, c, t = tr.tr(e.value)
+        if t in (_ARR, _OARR):
+            (s1, a), (s2, n) = _as(tr, e.value, _ARR), _as(tr, e.slice.upper, "Int")
+            return s1 + s2, f"(Py.Arr.pre {a} {n})", _ARR
+    if isinstance(e, ast.BoolOp) and isinstance(e.op, ast.Or) and len(e.values) == 2:
+        s1, a, ta = tr.tr(e.values[0])
+        if isinstance(ta, tuple) and ta[0] == "Option" and ta[1] == "Int" and ast.unparse(e.values[1]) in _DTYPES:
+            s2, b = _as(tr, e.values[1], ta[1])
+            return s1 + s2, f"(some (({a}).getD {b}))", ta
+    if isinstance(e, ast.Compare) and len(e.ops) == 1 and isinstance(e.ops[0], (ast.Eq, ast.NotEq)):
+        s1, a, ta = tr.tr(e.left)
+        s2, b, tb = tr.tr(e.comparators[0])
+        if ta == "Int" and tb == ("Option", "Int"):
+            a, ta = f"(some {a})", tb
+        elif tb == "Int" and ta == ("Option", "Int"):
+            b, tb = f"(some {b})", ta
+        else:
+            return None
+        sym = "=" if isinstance(e.ops[0], ast.Eq) else "≠"
+        return s1 + s2, f"(decide ({a} {sym} {b}))", "Bool"
+    if isinstance(e, ast.Dict) and e.keys and all(k is None for k in e.keys) and isinstance(want, tuple) and want[0] == "Dict":
+        steps, code = [], None
+        for x in e.values:
+            s1, c1, t1 = tr.tr(x, want)
+            if t1 != want:
+                return None
+            steps += s1
+            code = c1 if code is None else f"(Py.dictMerge {code} {c1})"
+        return steps, code, want
+    return None
+
+
+EXPR_HOOKS.append(_np_arrays)
+
+_NH = "swcgeom/utils/numpy_helper.py"
+spec(lean="padding1d", module="AlgoCtorInit", file=_NH, func="padding1d", callee=["padding1d"],
+     params=["heap", "n", "v", "padding_value", "dtype"],
+     vars={"heap": "Py.Bufs", "n": "Int", "v": "Option Arr", "padding_value": "Int", "dtype": "Option Int", "padding": "Arr"},
+     ret="Arr", out=["heap"], subst={"isinstance(v, np.ndarray)": ("(v.v).isSome", "Bool")},
+     defaults={"padding_value": "0", "dtype": "None"},
+     doc="`swcgeom/utils/numpy_helper.py::padding1d` (arrays are objects over the buffer heap `heap`; `v` is an array or None)")
+
+_NAMES = {f"names.{k}": (f'"{k}"', "String") for k in ("id", "type", "x", "y", "z", "r", "pid")}
+spec(lean="tree_init", module="AlgoCtorInit", file=_TREE, cls="Tree", func="__init__",
+     params=["heap", "n_nodes", "kwargs"],
+     vars={"heap": "Py.Bufs", "n_nodes": "Int", "kwargs": "Dict String Arr", "ndata": "Dict String Arr", "self_ndata": "Dict String Arr"},
+     ret="Unit", out=["heap", "self_ndata"], subst=_NAMES, skip_stmts=["names = get_names(names)"],
+     stmt_subst={"super().__init__(**ndata, **kwargs, source=source, comments=comments, names=names)": "self_ndata = {**ndata, **kwargs}"},
+     doc="`swcgeom/core/tree.py::Tree.__init__` (arrays are objects over the buffer heap `heap`; `kwargs` = the columns handed in, `self_ndata` = "
+         "the `ndata` dict of the new tree)")
